@@ -323,7 +323,14 @@ pub fn graph_prop(case: &GraphCase, known_cycle: bool) -> Outcome {
     crate::rt::set_now(crate::rt::t0());
     let g = graph(case);
     let (paths, cyclic) = simple_paths(&g);
-    let name = |i: usize| format!("g{i}");
+    // role names that are and are not changed by the file-name encoding
+    let name = |i: usize| match i % 5 {
+        0 => format!("g{i}"),
+        1 => format!("g {i}"),
+        2 => format!("g/{i}"),
+        3 => format!("g\u{e9}{i}"),
+        _ => format!("g%{i}"),
+    };
     let stub = |to: usize| DelegNode::new(&name(to), 4 + to, PathSpec::Paths(vec!["*".into()]));
     // role documents
     let mut role_files: BTreeMap<String, Vec<u8>> = BTreeMap::new();
@@ -334,7 +341,8 @@ pub fn graph_prop(case: &GraphCase, known_cycle: bool) -> Outcome {
         let doc = forge::sign_with(&signed, &[4 + i]);
         let bytes = forge::to_bytes(&doc, forge::Style::Compact);
         snap_meta.push((format!("{}.json", name(i)), forge::meta_entry(1, &bytes, false, false)));
-        role_files.insert(if case.consistent { format!("1.{}.json", name(i)) } else { format!("{}.json", name(i)) }, bytes);
+        let enc = forge::enc_name(&name(i));
+        role_files.insert(if case.consistent { format!("1.{enc}.json") } else { format!("{enc}.json") }, bytes);
     }
     let top_children: Vec<DelegNode> = g.adj[0].iter().map(|t| stub(*t)).collect();
     let mut s = Simple::basic(case.consistent);
